@@ -124,92 +124,76 @@ impl PathSliceList {
         w: &mut JsExprWriter<W>,
         scopes: &Vec<ScopeVar>,
         model: Option<bool>,
+        suffix: &[&PathSlice],
     ) -> Result<(), TmplError> {
-        let br = |w: &mut JsExprWriter<W>| -> Result<(), TmplError> {
-            write!(w, "[")?;
-            let mut write_items = || -> Result<bool, TmplError> {
-                let mut iter = self.0.iter();
-                let mut need_slice_1 = false;
-                let mut need_comma = true;
-                if model == Some(true) {
-                    match iter.next() {
-                        Some(PathSlice::Ident(s)) => write!(w, r#"{}"#, gen_lit_str(s))?,
-                        Some(PathSlice::ScopeIndex(i)) => match &scopes[*i].lvalue_path {
-                            ScopeVarLvaluePath::Var {
-                                var_name,
-                                from_data_scope,
-                            } if *from_data_scope => {
-                                write!(w, r#"...{}"#, var_name)?;
-                                need_slice_1 = true;
-                            }
-                            _ => return Ok(false),
-                        },
-                        Some(PathSlice::Condition(..)) => {
-                            need_comma = false;
-                        }
-                        _ => return Ok(false),
-                    }
-                } else {
-                    match iter.next() {
-                        Some(PathSlice::Ident(s)) => write!(w, r#"0,{}"#, gen_lit_str(s))?,
-                        Some(PathSlice::ScopeIndex(i)) => match &scopes[*i].lvalue_path {
-                            ScopeVarLvaluePath::Invalid => return Ok(false),
-                            ScopeVarLvaluePath::Var { var_name, .. } => {
-                                write!(w, r#"...{}"#, var_name)?
-                            }
-                            ScopeVarLvaluePath::Script { abs_path } => {
-                                write!(w, r#"1,{}"#, gen_lit_str(abs_path))?
-                            }
-                            ScopeVarLvaluePath::InlineScript { path, mod_name } => {
-                                write!(w, r#"2,{},{}"#, gen_lit_str(path), gen_lit_str(mod_name))?
-                            }
-                        },
-                        _ => return Ok(false),
-                    }
-                }
-                for x in iter {
-                    if need_comma {
-                        write!(w, ",")?;
-                    } else {
-                        need_comma = true;
-                    }
-                    match x {
-                        PathSlice::StaticMember(s) => write!(w, "{}", gen_lit_str(s))?,
-                        PathSlice::IndirectValue(i) => write!(w, "{}", i)?,
-                        _ => break,
-                    }
-                }
-                Ok(need_slice_1)
-            };
-            let need_slice_1 = write_items()?;
-            write!(w, "]")?;
-            if need_slice_1 {
-                write!(w, ".slice(1)")?;
-            }
-            Ok(())
-        };
+        // a conditional head: each branch gets the remaining slices appended
         if let Some(PathSlice::Condition(cond, (true_br, _), (false_br, _))) = self.0.first() {
-            if self.0.len() == 1 {
-                write!(w, r#"{}?"#, cond)?;
-                true_br.write_lvalue_path(w, scopes, model)?;
-                write!(w, r#":"#)?;
-                false_br.write_lvalue_path(w, scopes, model)?;
-            } else {
-                write!(w, r#"{}?"#, cond)?;
-                if true_br.write_lvalue_path(w, scopes, model)?.is_some() {
-                    write!(w, r#".concat("#)?;
-                    br(w)?;
-                    write!(w, r#")"#)?;
-                }
-                write!(w, r#":"#)?;
-                if false_br.write_lvalue_path(w, scopes, model)?.is_some() {
-                    write!(w, r#".concat("#)?;
-                    br(w)?;
-                    write!(w, r#")"#)?;
-                }
+            let mut rest: Vec<&PathSlice> = self.0[1..].iter().collect();
+            rest.extend_from_slice(suffix);
+            write!(w, r#"({}?"#, cond)?;
+            true_br.write_lvalue_path(w, scopes, model, &rest)?;
+            write!(w, r#":"#)?;
+            false_br.write_lvalue_path(w, scopes, model, &rest)?;
+            write!(w, r#")"#)?;
+            return Ok(());
+        }
+        let mut iter = self.0.iter();
+        // the path of a scope item is `null` at runtime if its list has no path
+        let mut scope_var = None;
+        let mut need_slice_1 = false;
+        let mut head = String::new();
+        if model == Some(true) {
+            match iter.next() {
+                Some(PathSlice::Ident(s)) => head = gen_lit_str(s),
+                Some(PathSlice::ScopeIndex(i)) => match &scopes[*i].lvalue_path {
+                    ScopeVarLvaluePath::Var {
+                        var_name,
+                        from_data_scope,
+                    } if *from_data_scope => {
+                        head = format!("...{}", var_name);
+                        scope_var = Some(var_name);
+                        need_slice_1 = true;
+                    }
+                    _ => {}
+                },
+                _ => {}
             }
         } else {
-            br(w)?;
+            match iter.next() {
+                Some(PathSlice::Ident(s)) => head = format!("0,{}", gen_lit_str(s)),
+                Some(PathSlice::ScopeIndex(i)) => match &scopes[*i].lvalue_path {
+                    ScopeVarLvaluePath::Invalid => {}
+                    ScopeVarLvaluePath::Var { var_name, .. } => {
+                        head = format!("...{}", var_name);
+                        scope_var = Some(var_name);
+                    }
+                    ScopeVarLvaluePath::Script { abs_path } => {
+                        head = format!("1,{}", gen_lit_str(abs_path));
+                    }
+                    ScopeVarLvaluePath::InlineScript { path, mod_name } => {
+                        head = format!("2,{},{}", gen_lit_str(path), gen_lit_str(mod_name));
+                    }
+                },
+                _ => {}
+            }
+        }
+        if let Some(var_name) = scope_var {
+            write!(w, "({}?", var_name)?;
+        }
+        write!(w, "[{}", head)?;
+        for x in iter.chain(suffix.iter().copied()) {
+            match x {
+                PathSlice::StaticMember(s) => write!(w, ",{}", gen_lit_str(s))?,
+                PathSlice::IndirectValue(i) => write!(w, ",{}", i)?,
+                _ => break,
+            }
+        }
+        write!(w, "]")?;
+        if need_slice_1 {
+            write!(w, ".slice(1)")?;
+        }
+        if scope_var.is_some() {
+            write!(w, ":null)")?;
         }
         Ok(())
     }
@@ -374,10 +358,11 @@ impl PathAnalysisState {
         w: &mut JsExprWriter<W>,
         scopes: &Vec<ScopeVar>,
         model: Option<bool>,
+        suffix: &[&PathSlice],
     ) -> Result<Option<()>, TmplError> {
         match &self {
             PathAnalysisState::InPath(psl) if psl.is_legal_lvalue_path(scopes, model) => {
-                psl.to_lvalue_path_arr(w, scopes, model)?;
+                psl.to_lvalue_path_arr(w, scopes, model, suffix)?;
                 Ok(Some(()))
             }
             _ => {
@@ -1255,7 +1240,7 @@ impl ExpressionProcGen {
         scopes: &Vec<ScopeVar>,
         model: Option<bool>,
     ) -> Result<(), TmplError> {
-        self.pas.write_lvalue_path(w, scopes, model)?;
+        self.pas.write_lvalue_path(w, scopes, model, &[])?;
         Ok(())
     }
 
